@@ -133,12 +133,20 @@ fn stacks_targets(t: &Targets) -> Vec<(&'static str, Dispatch, RecLayer)> {
 fn env(s: &str) -> Result<EnvFilter, String> {
     EnvFilter::builder().parse(s).map_err(|e| e.to_string())
 }
-fn stacks_env(s: &str) -> Vec<(&'static str, Dispatch, RecLayer)> {
+fn stacks_env(s: &str, x: u64) -> Vec<(&'static str, Dispatch, RecLayer)> {
+    use tracing_subscriber::filter::FilterExt;
     let r1 = RecLayer::default();
     let r2 = RecLayer::default();
+    let r3 = RecLayer::default();
+    let r4 = RecLayer::default();
+    let r5 = RecLayer::default();
     vec![
         ("E-global", Dispatch::new(tracing_subscriber::registry().with(env(s).unwrap()).with(r1.clone())), r1),
         ("E-plf", Dispatch::new(tracing_subscriber::registry().with(r2.clone().with_filter(env(s).unwrap()))), r2),
+        // the EnvFilter as an operand of the FilterExt combinators, next to a LevelFilter of rank x
+        ("E-or1", Dispatch::new(tracing_subscriber::registry().with(r3.clone().with_filter(lf(x).or(env(s).unwrap())))), r3),
+        ("E-or2", Dispatch::new(tracing_subscriber::registry().with(r4.clone().with_filter(env(s).unwrap().or(lf(x))))), r4),
+        ("E-and", Dispatch::new(tracing_subscriber::registry().with(r5.clone().with_filter(lf(x).and(env(s).unwrap())))), r5),
     ]
 }
 
@@ -197,14 +205,15 @@ fn main() {
                     }
                     Err(er) => case["e_rt"] = json!(format!("error: {er}")),
                 }
-                for (n, d, r) in stacks_env(&s) {
+                for (n, d, r) in stacks_env(&s, c["x"].as_u64().unwrap_or(3)) {
                     runs.push((n.into(), d, r));
                 }
             }
             lines.push(case);
             for (n, d, r) in runs {
                 let replies = run_script(&d, &r, &script);
-                lines.push(json!({"ev": "start", "i": i, "cfg": n, "kind": if n.starts_with('T') { "targets" } else { "env" }, "dirs": c["dirs"], "tv": c["tv"]}));
+                lines.push(json!({"ev": "start", "i": i, "cfg": n, "kind": if n.starts_with('T') { "targets" } else { "env" }, "dirs": c["dirs"], "tv": c["tv"],
+                    "wrap": if n == "E-or1" || n == "E-or2" { "or" } else if n == "E-and" { "and" } else { "" }, "x": c["x"].as_u64().unwrap_or(3)}));
                 for (op, reply) in script.iter().zip(replies) {
                     let mut o = op.clone();
                     o["ev"] = json!("op");
